@@ -42,6 +42,17 @@ def _init(name):
     _ST.update(ph=ph, gg=gg, name=name, p=p, C=poseidon_constants[name], tables=poseidon_constants)
 
 
+def _init_real(name):
+    """The REAL zkinterface backend module of this field (its own linear-combination arithmetic and modulus)."""
+    from .. import e1
+    mod, p = FIELDS[name]
+    e1.bind_real_worker(mod)
+    import pysnark.poseidon_hash as ph
+    from pysnark.poseidon_constants import poseidon_constants
+    import pysnark.ggh_hash as gg
+    _ST.update(ph=ph, gg=gg, name=name, p=p, C=poseidon_constants[name], tables=poseidon_constants, real=mod)
+
+
 def states(p, level):
     vals = [0, 1, 2, p - 1]
     out = [(0, 1, 2, 3, 4), (0, 0, 0, 0, 0)]
@@ -83,7 +94,10 @@ def _task(t):
     viols = []
 
     def bad(klass, text):
-        viols.append(({"klass": klass, "field": name}, "[%s] %s" % (name, text)))
+        if _ST.get("real"):
+            viols.append(({"klass": klass, "field": name, "backend": "real"}, "[%s, real backend module %s] %s" % (name, _ST["real"], text)))
+        else:
+            viols.append(({"klass": klass, "field": name}, "[%s] %s" % (name, text)))
 
     if ph.round_constants is not C["round_constants"] or ph.R_P != C["R_P"]:
         tab = [k for k, v in _ST["tables"].items() if v["round_constants"] is ph.round_constants]
@@ -124,7 +138,7 @@ def _task(t):
         got = [x.value % p for x in out]
         if len(inp) != n_in:
             bad("caller-list-modified", "poseidon_hash changed the caller's message list from %d to %d elements" % (n_in, len(inp)))
-        if typ == "int" and len(msg) in (1, 4):
+        if typ == "int" and len(msg) in (1, 4) and not _ST.get("real"):
             # history: the same list object hashed a second time in the same run
             c1 = len(H.R.cons)
             out2 = ph.poseidon_hash(inp)
@@ -257,6 +271,19 @@ def run(ctx):
             if r.get("ncons") is not None:
                 key = (name, r["kind"]) if r["kind"] == "perm" else (name, r["kind"], r["ncons"][0])
                 ncons_seen.setdefault(key, set()).add(r["ncons"] if r["kind"] == "perm" else r["ncons"][1])
+    # the same gadgets on the REAL zkinterface backend modules (the recorder cannot see their arithmetic)
+    for name, (mod, p) in FIELDS.items():
+        st_ = states(p, 0)
+        ms_ = messages(p, 0)
+        tasks = [("perm", name, s) for s in (st_[:14] if not ctx.thorough else st_)]
+        tasks += [("sponge", name, m) for m in (ms_[:14] + ms_[-8:] if not ctx.thorough else ms_)]
+        tasks += [("ggh", name, 4 if not ctx.thorough else 6)]
+        results = common.pool_map(_task, tasks, init=_init_real, initargs=(name,), force_fork=True)
+        for r in results:
+            ctx.add("real_backend_executions", r["st"]["executions"])
+            common.merge_counts(agg, r["st"])
+            for sig, text in r["viols"]:
+                ctx.violation(sig, {"field": name, "real": True}, text)
     for key, counts in ncons_seen.items():
         if len(counts) > 1:
             ctx.violation({"klass": "constraint-count-depends-on-input", "field": key[0]}, {"key": list(key)},
@@ -279,7 +306,8 @@ def run(ctx):
                        "lengths 4,5,8,9(,12) over three bit patterns, boolean- and fixed-point-typed inputs; padding on ALL "
                        "messages of length <= 9 over {0,1} through the real padding code; subset-sum hash on all bit vectors of "
                        "length <= 8 (10 thorough) x plain / integer-typed / boolean-typed / mixed; parameter selection in %d "
-                       "fresh interpreters" % len(sel))
+                       "fresh interpreters; a sub-family of the permutation / sponge / subset-sum instances again on the REAL "
+                       "zkinterface backend modules of the three fields (FlatBuffers builder shim)" % len(sel))
     ctx.sample({"field": "zkifbellman", "permute": [0, 1, 2, 3, 4], "expect": "published x5_255_5 vector"})
 
 
@@ -289,7 +317,10 @@ def replay(case):
         res = c19.run_point((env, tuple(pre), tuple(deps), pos))
         return {"point": case["pt"], "report": res.get("report"), "violations": [{"sig": s, "what": t} for s, t in judge_selection(res)]}
     name = case.get("field", "zkinterface")
-    _init(name)
+    (_init_real if case.get("real") else _init)(name)
     r = _task(("perm", name, (0, 1, 2, 3, 4)))
     r2 = _task(("ggh", name, 4))
+    if case.get("real"):
+        r3 = _task(("sponge", name, ("int", (1, _ST["p"] - 1))))
+        r["viols"] = r["viols"] + r3["viols"]
     return {"field": name, "violations": [{"sig": s, "what": t} for s, t in r["viols"] + r2["viols"]]}
